@@ -38,6 +38,64 @@ open Stam.Coll
 theorem limit_is_slice {α : Type} (b e : Int) (xs : List α) : limit b e xs = slice b e xs :=
   limit_eq_slice b e xs
 
+/-! ### what users read off LIMIT, as corollaries (each for `LimitIter` itself, through `limit_is_slice`) -/
+
+/-- LIMIT returns a contiguous run of the unlimited results, in their order: nothing invented, nothing reordered,
+nothing skipped in between -/
+theorem limit_is_infix {α : Type} (b e : Int) (xs : List α) : limit b e xs <:+: xs := by
+  rw [limit_is_slice]
+  unfold slice
+  exact List.IsInfix.trans (List.drop_suffix _ _).isInfix (List.take_prefix _ _).isInfix
+
+theorem limit_mem {α : Type} (b e : Int) (xs : List α) (x : α) (h : x ∈ limit b e xs) : x ∈ xs :=
+  (limit_is_infix b e xs).subset h
+
+/-- `LIMIT n` (begin 0, end n > 0): the first `n` results -/
+theorem limit_first {α : Type} (n : Nat) (hn : 0 < n) (xs : List α) : limit 0 n xs = xs.take n := by
+  rw [limit_is_slice]
+  unfold slice
+  have h1 : ((n : Int) > 0) := by omega
+  simp only [h1, if_true, ge_iff_le, Int.le_refl]
+  have h0 : (min (0 : Int) (xs.length : Int)).toNat = 0 := by omega
+  rw [h0, List.drop_zero]
+  by_cases hl : n ≤ xs.length
+  · have : (min (n : Int) (xs.length : Int)).toNat = n := by omega
+    rw [this]
+  · have : (min (n : Int) (xs.length : Int)).toNat = xs.length := by omega
+    rw [this, List.take_length, List.take_of_length_le (by omega)]
+
+/-- no limit (`0, 0`): everything -/
+theorem limit_none {α : Type} (xs : List α) : limit 0 0 xs = xs := by
+  rw [limit_is_slice]
+  unfold slice
+  have h1 : ¬ ((0 : Int) > 0) := by omega
+  simp only [h1, if_false, ge_iff_le, Int.le_refl, if_true]
+  have h0 : (min (0 : Int) (xs.length : Int)).toNat = 0 := by omega
+  have h2 : (max ((xs.length : Int) + 0) 0).toNat = xs.length := by omega
+  rw [h0, h2, List.drop_zero, List.take_length]
+
+/-- `LIMIT -n` (begin -n, end 0): the last `n` results -/
+theorem limit_last {α : Type} (n : Nat) (hn : 0 < n) (xs : List α) :
+    limit (-(n : Int)) 0 xs = xs.drop (xs.length - n) := by
+  rw [limit_is_slice]
+  unfold slice
+  have h1 : ¬ ((0 : Int) > 0) := by omega
+  have h2 : ¬ (-(n : Int) ≥ 0) := by omega
+  simp only [h1, h2, if_false]
+  have h3 : (max ((xs.length : Int) + 0) 0).toNat = xs.length := by omega
+  have h4 : (max ((xs.length : Int) + -(n : Int)) 0).toNat = xs.length - n := by omega
+  rw [h3, h4, List.take_length]
+
+/-- a window `begin ≥ 0`, `end > begin` never returns more than `end - begin` results -/
+theorem limit_length_le {α : Type} (b e : Nat) (hbe : b < e) (xs : List α) :
+    (limit (b : Int) (e : Int) xs).length ≤ e - b := by
+  rw [limit_is_slice]
+  unfold slice
+  have h1 : ((e : Int) > 0) := by omega
+  have h2 : ((b : Int) ≥ 0) := by omega
+  simp only [h1, h2, if_true, List.length_drop, List.length_take]
+  omega
+
 /-- **C08 (union).** -/
 theorem union_is_union (h o : H) (hh : Truthful h) (ho : Truthful o) :
     Truthful (union h o) ∧ ∀ x, x ∈ (union h o).arr ↔ x ∈ h.arr ∨ x ∈ o.arr :=
